@@ -792,6 +792,8 @@ def run_case(case):
                         res.label('above_threshold')
                     if not contig:
                         res.label('noncontiguous_cores')
+                    if fam == 'JSRUN' and any(len(rs['cores']) > 1 for rs in task['slots']):
+                        res.label('jsrun_multi_rank_resource_sets')
                     if n_before:
                         res.label('after_history')
                     if uneven or above or n_before:
